@@ -240,6 +240,16 @@ SELF_TYPES = {
     "Option<i32>": (["Some(1)", "Some(2)", "None", "Some(-1)"], ["Some(1)", "Some(> 0)", "None", "Some(_)", "|cl_o: &Option<i32>| cl_o.is_some()", "_"]),
     "(i32, String)": (["(1, \"a\".to_string())", "(1, \"b\".to_string())", "(2, \"a\".to_string())"],
                       ["(1, _)", "(_, \"a\")", "(> 1, _)", "(1, \"b\")", "(0: 1, 1: =~ r\"^a\")", "_"]),
+    # elements that are collections themselves: nested sets, slices and maps as element patterns, among them patterns that list only
+    # wildcards (they still state a minimum or exact length) and patterns that accept everything
+    "Vec<i32>": (["vec![]", "vec![1]", "vec![1, 2]", "vec![2, 2, 3]", "vec![1]"],
+                 ["#(_, ..)", "#(_, _, ..)", "[_, ..]", "[]", "[..]", "#(..)", "#(1)", "#(1, ..)", "[_]", "#(_, _)", "[.., 3]", "#(2, 2, ..)", "_"]),
+    "(i32, Vec<String>)": (["(1, vec![\"a\".to_string(), \"a\".to_string()])", "(2, vec![\"a\".to_string()])", "(1, vec![])", "(2, vec![\"b\".to_string(), \"a\".to_string()])"],
+                           ["(_, #(_, _, ..))", "(1, _)", "(_, #(_, ..))", "(2, #(\"a\"))", "(_, [])", "(_, #(\"a\", ..))", "(_, [..])", "_"]),
+    "BTreeMap<String, i32>": (["BTreeMap::new()", "BTreeMap::from([(\"a\".to_string(), 1)])", "BTreeMap::from([(\"a\".to_string(), 2), (\"b\".to_string(), 1)])"],
+                              ["#{ .. }", "#{}", "#{ \"a\": _, .. }", "#{ \"a\": 1 }", "#{ \"a\": _, \"b\": _ }", "#{ \"b\": _, .. }", "_"]),
+    # bytes: the same value has several spellings (byte literal, decimal, hex, escape)
+    "u8": (["b'a'", "b'b'", "b'b'", "b'\\n'"], ["b'a'", "97", "0x61", "b'\\x61'", "b'b'", "98", "b'\\n'", "0x0A", "10u8", "> 97", "_"]),
     "i32": (["1", "2", "3", "2"], ["1", "2", "> 1", "1..=2", "|cl_x: &i32| cl_x % 2 == 0", "!= 2", "_"]),
 }
 
